@@ -19,6 +19,7 @@ import (
 	"context"
 	"errors"
 	"fmt"
+	"io"
 	"math/big"
 	"regexp"
 	"strconv"
@@ -34,6 +35,7 @@ import (
 	"github.com/algorand/go-algorand/data/transactions/verify"
 	"github.com/algorand/go-algorand/ledger/ledgercore"
 	ledgertesting "github.com/algorand/go-algorand/ledger/testing"
+	"github.com/algorand/go-algorand/logging"
 	"github.com/algorand/go-algorand/protocol"
 )
 
@@ -334,6 +336,7 @@ func vc24SplitFees(r *vRand, total *big.Int, n int) []uint64 {
 }
 
 func TestVerifC24(t *testing.T) {
+	logging.Base().SetOutput(io.Discard) // recovered logging.Panicf calls would flood the log
 	out := vOpen("cases_c24.txt")
 	defer out.Close()
 	rnd := vNewRand(24)
@@ -683,11 +686,11 @@ func vc24EvalGroups(t *testing.T, out *vOut, r *vRand, n int, st map[string]int)
 			uniq++
 			ds[j] = vc24Tx{kind: 0, sender: addrs[r.Intn(len(addrs))], receiver: addrs[r.Intn(len(addrs))],
 				fv: ev.Round().SubSaturate(2), lv: ev.Round() + 10, gh: l.GenesisHash(), noteFill: byte(uniq), grouped: k > 1}
-			ds[j].note = 8 + uniq%50
+			ds[j].note = 12 + uniq%50
 			if r.Intn(3) == 0 {
 				ds[j].note = vc24Around(r, p.MaxTxnNoteBytes)
-				if ds[j].note < 4 {
-					ds[j].note = 4
+				if ds[j].note < 12 {
+					ds[j].note = 12
 				}
 			}
 			factors[j] = uint64(ds[j].build().FeeFactor(p))
@@ -706,7 +709,7 @@ func vc24EvalGroups(t *testing.T, out *vOut, r *vRand, n int, st map[string]int)
 			ds[j].grouped = false
 			stx := ds[j].build()
 			// make the note unique so that txids never repeat
-			copy(stx.Txn.Note, []byte(fmt.Sprintf("%06d", uniq*16+j)))
+			copy(stx.Txn.Note, []byte(fmt.Sprintf("%012d", i*64+j)))
 			stxs[j] = stx
 			grp.TxGroupHashes = append(grp.TxGroupHashes, crypto.Digest(stx.Txn.ID()))
 		}
